@@ -54,6 +54,25 @@ PolicyOK(parts) == \A i \in 1..Len(parts) :
    /\ InCut(parts[i].policy) => \A k \in 1..Len(parts[i].edges) : OwnedHere(parts[i], Orig(parts[i], parts[i].edges[k])[2])
 PartitionOK(n, E, parts) == /\ EdgesOnce(E, parts) /\ OneMaster(n, parts) /\ LocalIds(n, parts) /\ ProxyForEdges(parts)
                             /\ MirrorLists(parts) /\ PolicyOK(parts)
+\* large graphs: every host reports counts only (nnodes, nedges, nmasters, stored edges whose source / destination is not owned
+\* here, whether its mirror lists name exactly non-owned local proxies of that peer); the joint promises that counts can express
+RECURSIVE SumEdges(_)
+SumEdges(parts) == IF parts = <<>> THEN 0 ELSE Head(parts).nedges + SumEdges(Tail(parts))
+RECURSIVE SumMasters(_)
+SumMasters(parts) == IF parts = <<>> THEN 0 ELSE Head(parts).nmasters + SumMasters(Tail(parts))
+SummaryOK(parts) ==
+   /\ \A i \in 1..Len(parts) : /\ parts[i].mapsok = 1 /\ parts[i].localok = 1 /\ parts[i].mirrorsok = 1
+                                  /\ parts[i].nmirrors = parts[i].listed /\ parts[i].nnodes = parts[i].nmasters + parts[i].nmirrors
+   /\ SumEdges(parts) = parts[1].gm            \* every edge stored exactly once (as a count)
+   /\ SumMasters(parts) = parts[1].gn          \* every node mastered exactly once (as a count)
+   \* a partition that claims to be an edge cut stores every edge with the master of one fixed end
+   /\ (\A i \in 1..Len(parts) : parts[i].vcut = 0) =>
+         (\A i \in 1..Len(parts) : parts[i].foreignsrc = 0) \/ (\A i \in 1..Len(parts) : parts[i].foreigndst = 0)
+SummaryWhy(parts) == IF SumEdges(parts) # parts[1].gm THEN "edges-not-exactly-once"
+                     ELSE IF SumMasters(parts) # parts[1].gn THEN "master-assignment"
+                     ELSE IF \E i \in 1..Len(parts) : parts[i].mapsok # 1 \/ parts[i].localok # 1 THEN "local-ids"
+                     ELSE IF \E i \in 1..Len(parts) : parts[i].mirrorsok # 1 \/ parts[i].nmirrors # parts[i].listed THEN "mirror-lists"
+                     ELSE "policy-structure"
 Why(n, E, parts) == IF ~EdgesOnce(E, parts) THEN "edges-not-exactly-once" ELSE IF ~OneMaster(n, parts) THEN "master-assignment"
                     ELSE IF ~LocalIds(n, parts) THEN "local-ids" ELSE IF ~ProxyForEdges(parts) THEN "edge-without-proxy"
                     ELSE IF ~MirrorLists(parts) THEN "mirror-lists" ELSE "policy-structure"
